@@ -45,6 +45,18 @@ func (g *Gen) anyType(depth int) *TyDef {
 		return Ptr(Map(B("str"), B("int")))
 	case 9:
 		return Slice(Map(B("str"), B("int")))
+	case 10:
+		// library struct types with registered codecs (package null) in container positions
+		e := Ext(nullNames[g.r.Intn(5)])
+		switch g.r.Intn(4) {
+		case 0:
+			return Slice(e)
+		case 1:
+			return Ptr(e)
+		case 2:
+			return Map(B("str"), e)
+		}
+		return e
 	}
 	return g.valueType(depth)
 }
@@ -96,6 +108,9 @@ func runC08(r *Runner, g *Gen, tier string) string {
 		if g.r.P(10) {
 			tag = g.r.Pick("flat", "intern", "proto", "bogus")
 		}
+		if g.r.P(50) {
+			cfg = "(cfg " + cfg + " null)"
+		}
 		res := r.Do(codecOp("build", cfg, t, tag, A("5")), t.K == "struct" || t.K == "map" || t.K == "slice", "build")
 		if strings.HasPrefix(res, "ok ") && tag == "" && !strings.Contains(res, "unknown") {
 			// an accepted definition must also work: smoke round trip of the zero value and of a generated value
@@ -114,6 +129,8 @@ func canGenerate(t *TyDef) bool {
 	switch t.K {
 	case "bad":
 		return false
+	case "ext":
+		return false // null types in arbitrary positions: builder comparison only (slices of them are lossy, D22)
 	case "ptr", "slice":
 		return canGenerate(t.Elem)
 	case "map":
